@@ -311,6 +311,14 @@ func hasHashMethod(typ *types.Named) bool {
 func (g *gen) field(fieldName string, fieldType types.Type) (string, error) {
 	switch typ := fieldType.Underlying().(type) {
 	case *types.Basic:
+		if !types.Identical(fieldType, typ) {
+			// a named basic type is converted to its underlying type first,
+			// since math.Float64bits and the addition to the uint64 hash do not accept the named type.
+			switch typ.Kind() {
+			case types.Uint64, types.Float32, types.Float64:
+				fieldName = fmt.Sprintf("%s(%s)", typ.Name(), fieldName)
+			}
+		}
 		switch typ.Kind() {
 		case types.UntypedNil:
 			return "0", nil
